@@ -113,19 +113,37 @@ Proof.
   rewrite rep_upd, upd_upd_same. reflexivity.
 Qed.
 
+(* clearing a slot as the translated code writes it (data[i].Key = 0; data[i].Value = zero) *)
+Lemma gen_clear_data d i : i < length d ->
+  go_upd (go_upd (rep d) (Z.of_nat i) (mk_T_Pair 0%N (T_Pair_Value (go_idx zero_T_Pair (rep d) (Z.of_nat i))))) (Z.of_nat i)
+         (mk_T_Pair (T_Pair_Key (go_idx zero_T_Pair
+             (go_upd (rep d) (Z.of_nat i) (mk_T_Pair 0%N (T_Pair_Value (go_idx zero_T_Pair (rep d) (Z.of_nat i))))) (Z.of_nat i))) 0%N)
+  = rep (upd i empty_slot d).
+Proof.
+  intros Hi. rewrite rep_idx.
+  change (mk_T_Pair 0%N (T_Pair_Value (rep_slot (sl d i)))) with (rep_slot (0%N, snd (sl d i))).
+  rewrite rep_upd, rep_idx. rewrite sl_upd_eq by exact Hi.
+  change (mk_T_Pair (T_Pair_Key (rep_slot (0%N, snd (sl d i)))) 0%N) with (rep_slot empty_slot).
+  rewrite rep_upd, upd_upd_same. reflexivity.
+Qed.
+
+(* a Go table with 2^p slots *)
+Definition gom (p : nat) (d : list slot) (sz ga : Z) (hz : bool) (zv : N) : T_UInt64Map :=
+  mk_T_UInt64Map (rep d) sz ga (Z.of_nat (2 ^ p) - 1) hz zv.
+Lemma gom_gomap p d sz ga hz zv : length d = 2 ^ p -> gomap d sz ga hz zv = gom p d sz ga hz zv.
+Proof. intros H. unfold gomap, gom. rewrite H. reflexivity. Qed.
+
 (* the loop of backwardShiftDelete is the model's bshift *)
-Lemma gen_bshift p : p <= 62 -> forall lf fuel d i j sz ga hz zv,
+Lemma gen_bshift p : p <= 62 -> forall lf fuel d i j di sz ga hz zv,
   length d = 2 ^ p -> j < 2 ^ p ->
-  let r := go_UInt64Map_backwardShiftDelete_loop1 fuel lf (gomap d sz ga hz zv) 0%N (Z.of_nat i) (Z.of_nat j) in
+  let r := go_UInt64Map_backwardShiftDelete_loop1 fuel lf (gom p d sz ga hz zv) di 0%N (Z.of_nat i) (Z.of_nat j) in
   match bshift go_mix lf d (2 ^ p) i j with
-  | Some d' => fst r = GoNext /\ exists i' j', snd r = (gomap d' sz ga hz zv, 0%N, Z.of_nat i', Z.of_nat j')
+  | Some d' => fst r = GoNext /\ exists i' j', snd r = (gom p d' sz ga hz zv, di, 0%N, Z.of_nat i', Z.of_nat j')
   | None => fst r = GoOof
   end.
 Proof.
-  intros Hp. induction lf as [|lf IH]; intros fuel d i j sz ga hz zv Hlen Hj r; [reflexivity|].
-  subst r.
-  assert (Hg0 : gomap d sz ga hz zv = mk_T_UInt64Map (rep d) sz ga (Z.of_nat (2 ^ p) - 1) hz zv) by (unfold gomap; rewrite Hlen; reflexivity).
-  rewrite Hg0.
+  intros Hp. induction lf as [|lf IH]; intros fuel d i j di sz ga hz zv Hlen Hj r; [reflexivity|].
+  subst r. unfold gom.
   cbn [go_UInt64Map_backwardShiftDelete_loop1 bshift T_UInt64Map_data T_UInt64Map_size T_UInt64Map_growAt T_UInt64Map_mask T_UInt64Map_hasZeroKey T_UInt64Map_zeroVal].
   rewrite (gen_next p j Hj).
   set (j' := nxt (2 ^ p) j).
@@ -133,26 +151,130 @@ Proof.
   { unfold j', nxt. destruct (Nat.ltb_spec (S j) (2 ^ p)); [lia|]. pose proof (Nat.pow_nonzero 2 p); lia. }
   rewrite rep_idx. change (T_Pair_Key (rep_slot (sl d j'))) with (fst (sl d j')).
   destruct (N.eqb (fst (sl d j')) 0) eqn:Ek.
-  - split; [reflexivity|]. exists i, j'. unfold gomap. rewrite Hlen. reflexivity.
+  - split; [reflexivity|]. exists i, j'. reflexivity.
   - rewrite (gen_primaryIndex p _ (fst (sl d j')) Hp) by (cbn [T_UInt64Map_mask]; reflexivity).
     set (k := hidx go_mix (2 ^ p) (fst (sl d j'))).
     rewrite !zleb_nat, !zltb_nat. unfold stay.
-    assert (Hg : mk_T_UInt64Map (rep d) sz ga (Z.of_nat (2 ^ p) - 1) hz zv = gomap d sz ga hz zv) by (unfold gomap; rewrite Hlen; reflexivity).
-    assert (Hmv : forall d2, length d2 = 2 ^ p -> mk_T_UInt64Map (rep d2) sz ga (Z.of_nat (2 ^ p) - 1) hz zv = gomap d2 sz ga hz zv)
-      by (intros d2 H2; unfold gomap; rewrite H2; reflexivity).
     pose proof (gen_move d i j' sz ga (Z.of_nat (2 ^ p) - 1)%Z hz zv ltac:(lia)) as Hmove. cbv zeta in Hmove.
     cbn [T_UInt64Map_data T_UInt64Map_size T_UInt64Map_growAt T_UInt64Map_mask T_UInt64Map_hasZeroKey T_UInt64Map_zeroVal] in Hmove.
     rewrite (rep_idx d j') in Hmove.
     assert (Hlen2 : length (upd j' empty_slot (upd i (sl d j') d)) = 2 ^ p) by (rewrite !upd_length; exact Hlen).
     destruct (i <=? j').
     + destruct ((i <? k) && (k <=? j')).
-      * rewrite Hg. apply (IH fuel d i j' sz ga hz zv Hlen Hj').
-      * rewrite Hmove, (Hmv _ Hlen2). apply (IH fuel _ j' j' sz ga hz zv Hlen2 Hj').
+      * apply (IH fuel d i j' di sz ga hz zv Hlen Hj').
+      * rewrite Hmove. apply (IH fuel _ j' j' di sz ga hz zv Hlen2 Hj').
     + destruct ((i <? k) || (k <=? j')).
-      * rewrite Hg. apply (IH fuel d i j' sz ga hz zv Hlen Hj').
-      * rewrite Hmove, (Hmv _ Hlen2). apply (IH fuel _ j' j' sz ga hz zv Hlen2 Hj').
+      * apply (IH fuel d i j' di sz ga hz zv Hlen Hj').
+      * rewrite Hmove. apply (IH fuel _ j' j' di sz ga hz zv Hlen2 Hj').
 Qed.
 
+(* backwardShiftDelete as a whole (the receiver handed back) *)
+Lemma gen_bsd p : p <= 62 -> forall fuel d i sz ga hz zv, length d = 2 ^ p -> i < 2 ^ p ->
+  go_UInt64Map_backwardShiftDelete fuel (gom p d sz ga hz zv) (Z.of_nat i) =
+  match bshift go_mix fuel d (2 ^ p) i i with Some d' => Some (gom p d' sz ga hz zv) | None => None end.
+Proof.
+  intros Hp fuel d i sz ga hz zv Hlen Hi. unfold go_UInt64Map_backwardShiftDelete.
+  pose proof (gen_bshift p Hp fuel fuel d i i (Z.of_nat i) sz ga hz zv Hlen Hi) as H. cbv zeta in H.
+  destruct (go_UInt64Map_backwardShiftDelete_loop1 fuel fuel (gom p d sz ga hz zv) (Z.of_nat i) 0%N (Z.of_nat i) (Z.of_nat i)) as [c st].
+  destruct (bshift go_mix fuel d (2 ^ p) i i) as [d'|].
+  - destruct H as [H1 [i' [j' H2]]]. simpl in H1, H2. subst c st. reflexivity.
+  - simpl in H. subst c. reflexivity.
+Qed.
+
+Lemma bshift_more_fuel mix f : forall d n i j d', bshift mix f d n i j = Some d' ->
+  forall f', f <= f' -> bshift mix f' d n i j = Some d'.
+Proof.
+  induction f as [|f IH]; intros d n i j d' H f' Hf; simpl in H; [discriminate|].
+  destruct f' as [|f']; [lia|]. simpl.
+  destruct (N.eqb (fst (sl d (nxt n j))) 0); [exact H|].
+  destruct (stay i (nxt n j) (hidx mix n (fst (sl d (nxt n j))))); apply (IH _ _ _ _ _ H); lia.
+Qed.
+Lemma bshift_len mix f : forall d n i j d', bshift mix f d n i j = Some d' -> length d' = length d.
+Proof.
+  induction f as [|f IH]; intros d n i j d' H; simpl in H; [discriminate|].
+  destruct (N.eqb (fst (sl d (nxt n j))) 0); [inversion H; reflexivity|].
+  destruct (stay i (nxt n j) (hidx mix n (fst (sl d (nxt n j))))).
+  - apply (IH _ _ _ _ _ H).
+  - rewrite (IH _ _ _ _ _ H), !upd_length. reflexivity.
+Qed.
+
+(* ---- whole tables ---- *)
+Definition zhas (t : table) : bool := match t_zero t with Some _ => true | None => false end.
+Definition zval (t : table) : N := match t_zero t with Some v => v | None => 0%N end.
+Definition gotab (p : nat) (t : table) : T_UInt64Map :=
+  gom p (t_data t) (t_size t) (t_growAt t) (zhas t) (zval t).
+
+Lemma del_at_ok t i : t_bad (del_at go_mix t i) = false ->
+  t_bad t = false /\ exists d2, bshift go_mix (length (t_data t)) (upd i empty_slot (t_data t)) (length (t_data t)) i i = Some d2 /\
+    del_at go_mix t i = with_data t d2 (t_size t - 1)%Z.
+Proof.
+  unfold del_at. rewrite upd_length.
+  destruct (bshift go_mix (length (t_data t)) (upd i empty_slot (t_data t)) (length (t_data t)) i i) as [d2|]; simpl; intros H; [|discriminate].
+  split; [exact H|]. exists d2. split; reflexivity.
+Qed.
+
+(* data[i].Key = 0; data[i].Value = zero; size--; backwardShiftDelete(i)  =  del_at *)
+Lemma gen_del_at p : p <= 62 -> forall fuel t i, length (t_data t) = 2 ^ p -> i < 2 ^ p -> 2 ^ p <= fuel ->
+  t_bad (del_at go_mix t i) = false ->
+  go_UInt64Map_backwardShiftDelete fuel
+    (gom p (upd i empty_slot (t_data t)) (t_size t - 1)%Z (t_growAt t) (zhas t) (zval t)) (Z.of_nat i)
+  = Some (gotab p (del_at go_mix t i)) /\ length (t_data (del_at go_mix t i)) = 2 ^ p.
+Proof.
+  intros Hp fuel t i Hlen Hi Hf Hb. destruct (del_at_ok t i Hb) as [_ [d2 [Hs He]]].
+  rewrite Hlen in Hs. rewrite (gen_bsd p Hp) by (rewrite ?upd_length; auto).
+  rewrite (bshift_more_fuel go_mix _ _ _ _ _ _ Hs fuel Hf). rewrite He. split; [reflexivity|].
+  simpl. rewrite (bshift_len _ _ _ _ _ _ _ Hs), upd_length. exact Hlen.
+Qed.
+
+Lemma del_at_bad_mono t i : t_bad t = true -> t_bad (del_at go_mix t i) = true.
+Proof. unfold del_at. intros H. destruct (bshift _ _ _ _ _ _); simpl; auto. Qed.
+Lemma evict_loop_bad_mono f : forall t n idx sc de mx skip, t_bad t = true ->
+  t_bad (fst (evict_loop go_mix f t n idx sc de mx skip)) = true.
+Proof.
+  induction f as [|f IH]; intros t n idx sc de mx skip H; simpl; auto.
+  destruct ((sc <? n) && (de <? mx)); simpl; auto.
+  destruct (N.eqb (skey (t_data t) idx) 0 || N.eqb (skey (t_data t) idx) skip); apply IH; auto.
+  apply del_at_bad_mono; exact H.
+Qed.
+
+(* the scan of EvictKeysAt is the model's evict_loop *)
+Lemma gen_evict_loop p : p <= 62 -> forall lf fuel t idx sc de mx skip off,
+  length (t_data t) = 2 ^ p -> idx < 2 ^ p -> 2 ^ p <= fuel ->
+  (2 ^ p - sc) + (mx - de) < lf ->
+  let r := evict_loop go_mix lf t (2 ^ p) idx sc de mx skip in
+  t_bad (fst r) = false ->
+  exists idx' sc',
+    go_UInt64Map_EvictKeysAt_loop1 fuel lf (gotab p t) off (Z.of_nat mx) skip 0%N (Z.of_nat de) (Z.of_nat idx) (Z.of_nat sc)
+    = (GoNext, (gotab p (fst r), off, Z.of_nat mx, skip, 0%N, Z.of_nat (snd r), Z.of_nat idx', Z.of_nat sc'))
+    /\ length (t_data (fst r)) = 2 ^ p.
+Proof.
+  intros Hp. induction lf as [|lf IH]; intros fuel t idx sc de mx skip off Hlen Hidx Hf Hlf r Hb; [lia|].
+  subst r. unfold gotab, gom in *.
+  cbn [go_UInt64Map_EvictKeysAt_loop1 evict_loop T_UInt64Map_data T_UInt64Map_size T_UInt64Map_growAt T_UInt64Map_mask T_UInt64Map_hasZeroKey T_UInt64Map_zeroVal] in *.
+  replace (Z.of_nat sc <=? Z.of_nat (2 ^ p) - 1)%Z with (sc <? 2 ^ p)
+    by (destruct (Nat.ltb_spec sc (2 ^ p)); destruct (Z.leb_spec (Z.of_nat sc) (Z.of_nat (2 ^ p) - 1)); auto; lia).
+  rewrite zltb_nat.
+  destruct ((sc <? 2 ^ p) && (de <? mx)) eqn:Ec.
+  - rewrite rep_idx. change (T_Pair_Key (rep_slot (sl (t_data t) idx))) with (skey (t_data t) idx).
+    destruct (N.eqb (skey (t_data t) idx) 0 || N.eqb (skey (t_data t) idx) skip) eqn:Ek.
+    + rewrite (gen_next p idx Hidx).
+      replace (Z.of_nat sc + 1)%Z with (Z.of_nat (S sc)) by lia.
+      assert (Hn : nxt (2 ^ p) idx < 2 ^ p).
+      { unfold nxt. destruct (Nat.ltb_spec (S idx) (2 ^ p)); [lia|]. pose proof (Nat.pow_nonzero 2 p); lia. }
+      apply andb_true_iff in Ec. destruct Ec as [Ec1 Ec2]. apply Nat.ltb_lt in Ec1.
+      apply (IH fuel t (nxt (2 ^ p) idx) (S sc) de mx skip off Hlen Hn Hf); [lia|exact Hb].
+    + (* delete here *)
+      assert (Hbd : t_bad (del_at go_mix t idx) = false).
+      { destruct (t_bad (del_at go_mix t idx)) eqn:E; auto.
+        rewrite (evict_loop_bad_mono lf _ _ _ _ _ _ _ E) in Hb. discriminate. }
+      pose proof (gen_clear_data (t_data t) idx ltac:(lia)) as Hcl.
+      rewrite (rep_idx (t_data t) idx) in Hcl. rewrite Hcl.
+      destruct (gen_del_at p Hp fuel t idx Hlen Hidx Hf Hbd) as [Hd Hl2]. unfold gom in Hd. rewrite Hd.
+      replace (Z.of_nat de + 1)%Z with (Z.of_nat (S de)) by lia.
+      apply andb_true_iff in Ec. destruct Ec as [Ec1 Ec2]. apply Nat.ltb_lt in Ec2.
+      apply (IH fuel (del_at go_mix t idx) idx sc (S de) mx skip off Hl2 Hidx Hf); [lia|exact Hb].
+  - exists idx, sc. split; [reflexivity|exact Hlen].
+Qed.
 (* the probe loop of Get (for i := 1; i < len(m.data); i++) is the model's scan
    from the slot after [idx] with len - i slots to go *)
 Lemma gen_get_loop p : p <= 62 -> forall lf fuel d k idx ii sz ga hz zv,
@@ -198,15 +320,130 @@ Proof.
   apply (gen_get_loop p Hp fuel fuel d k idx 1 sz ga hz zv Hlen Hidx Hk). lia.
 Qed.
 
-(* backwardShiftDelete's loop as srcgen wraps it (j starts at i) *)
-Lemma gen_bshift_run p : p <= 62 -> forall fuel d i sz ga hz zv,
-  length d = 2 ^ p -> i < 2 ^ p ->
-  let r := go_UInt64Map_backwardShiftDelete_loop1_run fuel (gomap d sz ga hz zv) 0%N (Z.of_nat i) in
-  match bshift go_mix fuel d (2 ^ p) i i with
-  | Some d' => fst r = GoNext /\ exists i' j', snd r = (gomap d' sz ga hz zv, 0%N, Z.of_nat i', Z.of_nat j')
-  | None => fst r = GoOof
+
+(* ---- EvictKeysAt as a whole ---- *)
+Lemma evict_loop_fuel f1 : forall f2 t n idx sc de mx skip,
+  (n - sc) + (mx - de) <= f1 -> (n - sc) + (mx - de) <= f2 ->
+  evict_loop go_mix f1 t n idx sc de mx skip = evict_loop go_mix f2 t n idx sc de mx skip.
+Proof.
+  induction f1 as [|f1 IH]; intros f2 t n idx sc de mx skip H1 H2.
+  - destruct f2; simpl; [reflexivity|].
+    destruct (Nat.ltb_spec sc n); destruct (Nat.ltb_spec de mx); simpl; try reflexivity; lia.
+  - destruct f2 as [|f2]; simpl.
+    + destruct (Nat.ltb_spec sc n); destruct (Nat.ltb_spec de mx); simpl; try reflexivity; lia.
+    + destruct (Nat.ltb_spec sc n); destruct (Nat.ltb_spec de mx); simpl; try reflexivity.
+      destruct (N.eqb (skey (t_data t) idx) 0 || N.eqb (skey (t_data t) idx) skip); apply IH; lia.
+Qed.
+
+Lemma gen_evict p : p <= 62 -> forall fuel t off nmax skip,
+  length (t_data t) = 2 ^ p -> 2 ^ p + Z.to_nat nmax < fuel ->
+  t_bad (fst (tevict go_mix t off nmax skip)) = false ->
+  go_UInt64Map_EvictKeysAt fuel (gotab p t) off nmax skip =
+  Some (snd (tevict go_mix t off nmax skip), gotab p (fst (tevict go_mix t off nmax skip))).
+Proof.
+  intros Hp fuel t off nmax skip Hlen Hf. unfold go_UInt64Map_EvictKeysAt, tevict.
+  assert (Hn0 : 2 ^ p <> 0) by (apply Nat.pow_nonzero; lia).
+  unfold gotab, gom. cbn [T_UInt64Map_data T_UInt64Map_mask]. unfold go_len. rewrite rep_length, Hlen.
+  cbn [orb]. destruct (Z.leb_spec nmax 0) as [Hle|Hgt]; [intros _; reflexivity|].
+  destruct (Z.eqb_spec (Z.of_nat (2 ^ p)) 0); [lia|]. destruct (Nat.eqb_spec (2 ^ p) 0); [lia|]. cbn [orb].
+  set (mx := Z.to_nat nmax). assert (Hmx : nmax = Z.of_nat mx) by (unfold mx; lia).
+  rewrite land_mask_mod. rewrite <- pow2_Z.
+  set (idx := Z.to_nat (off mod Z.of_nat (2 ^ p))).
+  assert (Hidx : idx < 2 ^ p) by (unfold idx; pose proof (Z.mod_pos_bound off (Z.of_nat (2 ^ p)) ltac:(lia)); lia).
+  assert (Hiz : (off mod Z.of_nat (2 ^ p))%Z = Z.of_nat idx) by (unfold idx; pose proof (Z.mod_pos_bound off (Z.of_nat (2 ^ p)) ltac:(lia)); lia).
+  rewrite Hiz.
+  rewrite (evict_loop_fuel (2 ^ p + mx) fuel t (2 ^ p) idx 0 0 mx skip) by lia.
+  destruct (evict_loop go_mix fuel t (2 ^ p) idx 0 0 mx skip) as [t1 deleted] eqn:Eev.
+  intros Hb.
+  assert (Hb1 : t_bad t1 = false).
+  { destruct (t_zero t1); [destruct ((deleted <? mx) && negb (N.eqb skip 0))|]; simpl in Hb; exact Hb. }
+  pose proof (gen_evict_loop p Hp fuel fuel t idx 0 0 mx skip off Hlen Hidx ltac:(lia) ltac:(lia)) as HL.
+  cbv zeta in HL. rewrite Eev in HL. simpl fst in HL. simpl snd in HL.
+  destruct (HL Hb1) as [idx' [sc' [HG Hl1]]].
+  change (Z.of_nat 0) with 0%Z in HG. rewrite Hmx. unfold gotab, gom in HG. rewrite HG.
+  cbn [T_UInt64Map_hasZeroKey T_UInt64Map_data T_UInt64Map_size T_UInt64Map_growAt T_UInt64Map_mask T_UInt64Map_zeroVal].
+  rewrite zltb_nat. unfold zhas.
+  destruct (t_zero t1) as [zv|] eqn:Ez.
+  - rewrite andb_true_r. destruct ((deleted <? mx) && negb (N.eqb skip 0)) eqn:Ec.
+    + simpl fst. simpl snd. unfold gotab, gom, zhas, zval. simpl. do 2 f_equal. lia.
+    + simpl fst. simpl snd. unfold gotab, gom, zhas, zval. rewrite Ez. reflexivity.
+  - rewrite andb_false_r. simpl. unfold gotab, gom, zhas, zval. rewrite Ez. reflexivity.
+Qed.
+
+(* ---- Del as a whole ---- *)
+Lemma scan_step stop n d m h : n <> 0 ->
+  scan stop n d m h = if stop (sl d h) then Some h else scan stop (n - 1) d m (nxt m h).
+Proof. intros H. destruct n; [lia|]. simpl. rewrite Nat.sub_0_r. reflexivity. Qed.
+Lemma gen_del_loop p : p <= 62 -> forall lf fuel t k idx ii,
+  length (t_data t) = 2 ^ p -> idx < 2 ^ p -> k <> 0%N -> 2 ^ p <= fuel -> 2 ^ p - ii < lf ->
+  let r := go_UInt64Map_Del_loop1 fuel lf (gotab p t) k (Z.of_nat idx) (Z.of_nat ii) in
+  match scan (stop_key k) (2 ^ p - ii) (t_data t) (2 ^ p) (nxt (2 ^ p) idx) with
+  | Some x => if N.eqb (skey (t_data t) x) k
+              then t_bad (del_at go_mix t x) = false -> fst r = GoRet (true, gotab p (del_at go_mix t x))
+              else fst r = GoRet (false, gotab p t)
+  | None => fst r = GoNext /\ fst (fst (fst (snd r))) = gotab p t
   end.
 Proof.
-  intros Hp fuel d i sz ga hz zv Hlen Hi. unfold go_UInt64Map_backwardShiftDelete_loop1_run.
-  apply (gen_bshift p Hp fuel fuel d i i sz ga hz zv Hlen Hi).
+  intros Hp. induction lf as [|lf IH]; intros fuel t k idx ii Hlen Hidx Hk Hf Hlf r; [lia|].
+  subst r. unfold gotab, gom.
+  cbn [go_UInt64Map_Del_loop1 T_UInt64Map_data T_UInt64Map_size T_UInt64Map_growAt T_UInt64Map_mask T_UInt64Map_hasZeroKey T_UInt64Map_zeroVal].
+  unfold go_len. rewrite rep_length, Hlen, zltb_nat.
+  destruct (Nat.ltb_spec ii (2 ^ p)) as [Hii|Hii].
+  - replace (2 ^ p - ii) with (S (2 ^ p - S ii)) by lia. cbn [scan].
+    rewrite (gen_next p idx Hidx). set (j := nxt (2 ^ p) idx).
+    assert (Hj : j < 2 ^ p).
+    { unfold j, nxt. destruct (Nat.ltb_spec (S idx) (2 ^ p)); [lia|]. pose proof (Nat.pow_nonzero 2 p); lia. }
+    pose proof (gen_clear_data (t_data t) j ltac:(lia)) as Hcl.
+    rewrite (rep_idx (t_data t) j) in Hcl. rewrite (rep_idx (t_data t) j).
+    change (T_Pair_Key (rep_slot (sl (t_data t) j))) with (fst (sl (t_data t) j)).
+    unfold stop_key, skey.
+    destruct (N.eqb (fst (sl (t_data t) j)) k) eqn:E1.
+    + cbn [orb]. rewrite E1. intros Hb. rewrite Hcl.
+      destruct (gen_del_at p Hp fuel t j Hlen Hj Hf Hb) as [Hd _]. unfold gom in Hd. rewrite Hd. reflexivity.
+    + destruct (N.eqb (fst (sl (t_data t) j)) 0) eqn:E2.
+      * cbn [orb]. rewrite E1. reflexivity.
+      * cbn [orb]. replace (Z.of_nat ii + 1)%Z with (Z.of_nat (S ii)) by lia.
+        pose proof (IH fuel t k j (S ii) Hlen Hj Hk Hf ltac:(lia)) as H. cbv zeta in H. unfold gotab, gom in H. exact H.
+  - replace (2 ^ p - ii) with 0 by lia. split; reflexivity.
+Qed.
+
+Lemma gen_del p : p <= 62 -> forall fuel t k, length (t_data t) = 2 ^ p -> 2 ^ p < fuel ->
+  t_bad (fst (tdel go_mix t k)) = false ->
+  go_UInt64Map_Del fuel (gotab p t) k = Some (snd (tdel go_mix t k), gotab p (fst (tdel go_mix t k))).
+Proof.
+  intros Hp fuel t k Hlen Hf. unfold go_UInt64Map_Del, tdel.
+  assert (Hn0 : 2 ^ p <> 0) by (apply Nat.pow_nonzero; lia).
+  destruct (N.eqb_spec k 0) as [->|Hk].
+  - unfold gotab at 1. unfold gom at 1. cbn [T_UInt64Map_hasZeroKey]. unfold zhas.
+    destruct (t_zero t) as [zv|] eqn:Ez; intros _.
+    + unfold gotab, gom, zhas, zval. simpl. rewrite ?Ez. reflexivity.
+    + unfold gotab, gom, zhas, zval. simpl. rewrite ?Ez. reflexivity.
+  - rewrite (gen_primaryIndex p (gotab p t) k Hp) by reflexivity.
+    set (h := hidx go_mix (2 ^ p) k).
+    assert (Hh : h < 2 ^ p).
+    { unfold h, hidx. assert (N.modulo (go_mix k) (N.of_nat (2 ^ p)) < N.of_nat (2 ^ p))%N by (apply N.mod_lt; lia). lia. }
+    unfold probe. rewrite Hlen. fold h. rewrite (scan_step _ (2 ^ p) _ (2 ^ p) h Hn0).
+    pose proof (gen_clear_data (t_data t) h ltac:(lia)) as Hcl.
+    rewrite (rep_idx (t_data t) h) in Hcl.
+    unfold gotab, gom.
+    cbn [T_UInt64Map_data T_UInt64Map_size T_UInt64Map_growAt T_UInt64Map_mask T_UInt64Map_hasZeroKey T_UInt64Map_zeroVal].
+    rewrite (rep_idx (t_data t) h).
+    change (T_Pair_Key (rep_slot (sl (t_data t) h))) with (fst (sl (t_data t) h)).
+    unfold stop_key, skey.
+    destruct (N.eqb (fst (sl (t_data t) h)) k) eqn:E1.
+    + cbn [orb]. rewrite E1. intros Hb. simpl fst in Hb. rewrite Hcl.
+      destruct (gen_del_at p Hp fuel t h Hlen Hh ltac:(lia) Hb) as [Hd _]. unfold gotab, gom in Hd. rewrite Hd. reflexivity.
+    + destruct (N.eqb (fst (sl (t_data t) h)) 0) eqn:E2.
+      * cbn [orb]. rewrite E1. intros _. reflexivity.
+      * cbn [orb].
+        pose proof (gen_del_loop p Hp fuel fuel t k h 1 Hlen Hh Hk ltac:(lia) ltac:(lia)) as HL. cbv zeta in HL.
+        unfold gotab, gom in HL.
+        destruct (go_UInt64Map_Del_loop1 fuel fuel _ k (Z.of_nat h) 1%Z) as [c st] eqn:EL.
+        change (Z.of_nat 1) with 1%Z in HL. rewrite EL in HL. unfold stop_key in HL.
+        destruct (scan (fun s => N.eqb (fst s) k || N.eqb (fst s) 0) (2 ^ p - 1) (t_data t) (2 ^ p) (nxt (2 ^ p) h)) as [x|].
+        -- unfold skey in HL. destruct (N.eqb (fst (sl (t_data t) x)) k).
+           ++ intros Hb. simpl fst in HL. rewrite (HL Hb). reflexivity.
+           ++ intros _. simpl fst in HL. rewrite HL. reflexivity.
+        -- intros _. destruct HL as [H1 H2]. simpl in H1, H2. subst c.
+           destruct st as [[[m1 k1] i1] j1]. simpl in H2. subst m1. reflexivity.
 Qed.
